@@ -18,7 +18,8 @@
      len_bounds_* / len_suffices_*   Msg.Len bounds what is advanced over, and a buffer
                       with room for Len never fails for lack of room. *)
 From Sdns Require Import Common.Base Gen.C15 C15.Model C15.Proofs_bits C15.Proofs_select C15.Proofs_buf
-                         C15.Proofs_pack C15.Proofs_clone C15.Proofs_refute C15.Concrete C15.Proofs_concrete.
+                         C15.Proofs_pack C15.Proofs_clone C15.Proofs_refute C15.Concrete C15.Proofs_concrete
+                         C15.Hybrid C15.Proofs_hybrid.
 
 (* ---- translator ties: constants re-read from pack.go ---- *)
 
@@ -297,9 +298,10 @@ Print Assumptions packclone_eq_libpack.
 
 (* C15.Concrete models packDomainName with its compression dictionary (escape-free names) and
    packRR for step-sequence records (A — including the octet-skipping 16-byte form —, AAAA,
-   NS, CNAME, PTR, MX, DNAME, NULL, option-less OPT); both are tied to the Go code octet by
-   octet by the name / concrete cases of the wire driver.  Every premise used above holds
-   for them: *)
+   NS, CNAME, PTR, MX, DNAME, NULL, TXT — including the empty one that pokes an octet beyond
+   what it advances over —, SOA, SRV, HINFO, CAA, DS, DNSKEY, RRSIG, NSEC, TLSA, OPT with opaque
+   options); both are tied to the Go code octet by octet by the name / concrete cases of the
+   wire driver.  Every premise used above holds for them: *)
 Theorem concrete_primitives_satisfy_the_premises :
   in_place_name name dict pack_name_c /\ in_place_rr name body dict pack_rr_c /\
   frame_name name dict pack_name_c /\ frame_rr name body dict pack_rr_c /\ in_bounds_rr name body dict pack_rr_c /\
@@ -335,3 +337,57 @@ Theorem concrete_packclone_is_libpack : forall st m, pool_inv name body dict [] 
   (forallb admissible_rr (shapes name body (m_records name body m)) = true -> snd (pack_clone_c st m) = m).
 Proof. exact concrete_packclone_is_libpack_l. Qed.
 Print Assumptions concrete_packclone_is_libpack.
+
+(* ---- one assumption left: the rdata of the remaining record types is a buffer-blind plan ---- *)
+
+(* C15.Hybrid: a record's rdata is a sequence of concrete step runs and ABSTRACT fragments (the
+   rdata of SVCB/HTTPS, LOC, APL, NSEC3, IPSECKEY, ... — record types the admission lets through
+   that the step model does not decompose).  Owner names with their dictionary, record headers,
+   the RDLENGTH patch, questions and the message header are concrete.  All that is assumed of a
+   fragment is [rdata_plan_ok]: its writes, end offset, dictionary and the extent its bounds
+   checks demand are a function of offset / dictionary / compress flag (not of the buffer), the
+   writes stay inside that extent, and Len() bounds both what it advances over and (with one
+   octet to spare) the extent.  The eleven premises of the abstract theorems follow. *)
+Theorem hybrid_trypack_is_libpack :
+  forall (X : Type) (plan_x : X -> nat -> option dict -> bool -> option plan) (len_x : X -> nat),
+  rdata_plan_ok X plan_x len_x ->
+  forall st m bytes, pool_inv name (hbody X) dict [] [] st ->
+  tp_bytes name (hbody X) dict (try_pack_h X plan_x len_x st m) = Some bytes ->
+  exists m', lib_pack_h X plan_x len_x m = (LOk bytes, m').
+Proof. exact hybrid_trypack_is_libpack_l. Qed.
+Print Assumptions hybrid_trypack_is_libpack.
+
+Theorem hybrid_pool_state_noninterference :
+  forall (X : Type) (plan_x : X -> nat -> option dict -> bool -> option plan) (len_x : X -> nat),
+  rdata_plan_ok X plan_x len_x ->
+  forall st1 st2 m, pool_inv name (hbody X) dict [] [] st1 -> pool_inv name (hbody X) dict [] [] st2 ->
+  tp_bytes name (hbody X) dict (try_pack_h X plan_x len_x st1 m) = tp_bytes name (hbody X) dict (try_pack_h X plan_x len_x st2 m) /\
+  tp_handled name (hbody X) dict (try_pack_h X plan_x len_x st1 m) = tp_handled name (hbody X) dict (try_pack_h X plan_x len_x st2 m).
+Proof. exact hybrid_pool_state_noninterference_l. Qed.
+Print Assumptions hybrid_pool_state_noninterference.
+
+Theorem hybrid_schedules_see_a_fresh_packer :
+  forall (X : Type) (plan_x : X -> nat -> option dict -> bool -> option plan) (len_x : X -> nat),
+  rdata_plan_ok X plan_x len_x ->
+  forall es s,
+  sched_ok name (hbody X) dict [] [] cm_len_c pack_name_c (pack_rr_h X plan_x) q_len_c (rr_len_h X len_x) s ->
+  sched_ok name (hbody X) dict [] [] cm_len_c pack_name_c (pack_rr_h X plan_x) q_len_c (rr_len_h X len_x)
+           (sched_run name (hbody X) dict [] [] cm_len_c pack_name_c (pack_rr_h X plan_x) q_len_c (rr_len_h X len_x) es s).
+Proof. exact hybrid_schedules_l. Qed.
+Print Assumptions hybrid_schedules_see_a_fresh_packer.
+
+Theorem hybrid_packclone_is_libpack :
+  forall (X : Type) (plan_x : X -> nat -> option dict -> bool -> option plan) (len_x : X -> nat),
+  rdata_plan_ok X plan_x len_x ->
+  forall st m, pool_inv name (hbody X) dict [] [] st ->
+  fst (fst (pack_clone_h X plan_x len_x st m)) = fst (lib_pack_h X plan_x len_x m) /\
+  (forallb admissible_rr (shapes name (hbody X) (m_records name (hbody X) m)) = true -> snd (pack_clone_h X plan_x len_x st m) = m).
+Proof. exact hybrid_packclone_is_libpack_l. Qed.
+Print Assumptions hybrid_packclone_is_libpack.
+
+(* the assumption is satisfiable: by the octet-skipping fragment, and by any run of concrete
+   steps read as one opaque fragment *)
+Theorem rdata_plan_ok_is_satisfiable :
+  rdata_plan_ok unit skip4_plan (fun _ => 4%nat) /\ rdata_plan_ok body steps_plan body_len.
+Proof. exact (conj skip4_plan_ok steps_plan_ok). Qed.
+Print Assumptions rdata_plan_ok_is_satisfiable.
